@@ -202,6 +202,7 @@ func directNode(k *kernel.K, l string, depth int) *node.Node {
 	kl := keyLens[k.Choose(len(keyLens), l+"keylen")]
 	if depth == 0 && k.Tier == "thorough" && k.Bool(1, 50, l+"maxkey") {
 		kl = 65535
+		k.Probe("partial-key-65535-nibbles")
 	}
 	if depth > 0 {
 		kl = []int{0, 1, 2, 5, 63, 64}[k.Choose(6, l+"ckeylen")]
